@@ -129,7 +129,7 @@ for fam, sq in (("var", "false"), ("stddev", "true")):
     for (T, dt), cfgs in VAR_CFG[fam].items():
         for a, k in cfgs:
             name = "wr_%s_%s_a%s_d%s_k%s" % (fam, T, a, dt, k)
-            OPS.append(dict(name=name, grp="wrap_v", kind="var", fam=fam, T=T, R=None, axis=a, dtype=dt, keep=k, sqrt=sq,
+            OPS.append(dict(name=name, grp="wrap_v" if fam == "var" else "wrap_s", kind="var", fam=fam, T=T, R=None, axis=a, dtype=dt, keep=k, sqrt=sq,
                             call="view::%s(a, axis, %s, ddof, keepdims)" % (fam, DTYPE[dt]), hdr="nmtools/array/view/%s.hpp" % fam, data="labels"))
 # ---- vector_norm(a, axis, keepdims, ord)
 for T in ("f8", "f4", "i4"):
@@ -146,7 +146,7 @@ for T, dt in (("i4", "N"), ("f8", "N"), ("i4", "f8")):
 OPS.append(dict(name="wr_trace0_i4", grp="wrap_c", kind="trace0", fam="trace", op="add", T="i4", R="i4", dtype="N",
                 call="view::trace(a)", sf=functor("add", "N"), hdr="nmtools/array/view/trace.hpp", npop="add", data="labels"))
 
-GROUPS = ["add", "ops_i", "ops_f", "generic", "accum", "wrap_a", "wrap_b", "wrap_v", "wrap_c"]
+GROUPS = ["add", "ops_i", "ops_f", "generic", "accum", "wrap_a", "wrap_b", "wrap_v", "wrap_s", "wrap_c"]
 HARNESS = ["c08_" + g for g in GROUPS]
 BY_NAME = {o["name"]: o for o in OPS}
 assert len(BY_NAME) == len(OPS), "duplicate op names"
